@@ -38,15 +38,28 @@ def run(chk):
     K = 3
     fr = [X.atom(f'massfrac{i}', 'pos') for i in range(K)]; cc = [X.atom(f'conc{i}', 'pos') for i in range(K)]
     hl = [X.atom(f'halflife{i}', 'pos') for i in range(K)]; hp = [X.atom(f'q{i}', 'pos') for i in range(K)]
-    val = it.call(mr, f_iso, [t, mass, tuple(fr), tuple(cc), tuple(hl), tuple(hp), tref])
+    from ..core.interp import PathExplorer
+
+    def call_paths(mod, f, args):
+        """every arm (with non-empty interior) of the data-dependent tests of f: [(label, value)]; comparisons that stay inside the value as masks are sampled by the decider"""
+        def one(fork):
+            it.hooks['fork'] = fork
+            try: return it.call(mod, f, list(args))
+            finally: it.hooks.pop('fork', None)
+        out = [(PathExplorer.label(tr_), v_) for tr_, v_ in PathExplorer(max_paths=32).run(one) if not any(PathExplorer.arm(c_, o_)[0] == 'equality' for (c_, _w, _t, o_) in tr_)]
+        if not out: raise AnalysisError(f'{f.name}: no path with non-empty interior')
+        return out
+    vals = call_paths(mr, f_iso, [t, mass, tuple(fr), tuple(cc), tuple(hl), tuple(hp), tref])
+    val = vals[0][1]
     where = mr.where(f_iso)
     ln_half = X.fn('log', X.const(F(1, 2)))
     ref = X.ZERO
     for i in range(K):
         ref = ref + fr[i] * cc[i] * hp[i] * X.fn('exp', ln_half / hl[i] * (t - tref))
-    eq('R19.1', 'isotope: heating == mass * sum_i f_i c_i q_i exp(ln(1/2) (t - t_ref)/halflife_i)', val, mass * ref, where)
-    singles = [it.call(mr, f_iso, [t, mass, (fr[i],), (cc[i],), (hl[i],), (hp[i],), tref]) for i in range(K)]
-    eq('R19.1', 'isotope: additive over isotopes (all == sum of single-isotope calls)', val, singles[0] + singles[1] + singles[2], where)
+    singles = [call_paths(mr, f_iso, [t, mass, (fr[i],), (cc[i],), (hl[i],), (hp[i],), tref])[0][1] for i in range(K)]
+    for plab, pv in vals:
+        eq('R19.1', 'isotope: heating == mass * sum_i f_i c_i q_i exp(ln(1/2) (t - t_ref)/halflife_i)' + plab, pv, mass * ref, where)
+        eq('R19.1', 'isotope: additive over isotopes (all == sum of single-isotope calls)' + plab, pv, singles[0] + singles[1] + singles[2], where)
     for i in range(K):
         eq('R19.1', f'isotope {i}: value(t + halflife) == value(t) / 2', X.subst(singles[i], {'time': t + hl[i]}), singles[i] / 2, where)
         eq('R19.1', f'isotope {i}: value(t_ref) == mass * f c q', X.subst(singles[i], {'time': tref}), mass * fr[i] * cc[i] * hp[i], where)
@@ -59,8 +72,8 @@ def run(chk):
     eq('R19.1', 'fixed: value(t + halflife) == value(t) / 2', X.subst(vf, {'time': t + ahl}), vf / 2, mr.where(f_fix))
     eq('R19.1', 'fixed: value(t_ref) == mass q', X.subst(vf, {'time': tref}), mass * q, mr.where(f_fix))
     eq('R19.1', 'off: zero heating', it.call(mr, f_off, [t, mass]), X.ZERO, mr.where(f_off))
-    for d_, nm in ((it.call(mr, f_iso, [t, mass, tuple(fr), tuple(cc), tuple(hl), tuple(hp)]), 'isotope'), (it.call(mr, f_fix, [t, mass, q, ahl]), 'fixed')):
-        pass
+    # default reference time (argument omitted): the same law with t_ref = the default
+    call_paths(mr, f_iso, [t, mass, tuple(fr), tuple(cc), tuple(hl), tuple(hp)]); it.call(mr, f_fix, [t, mass, q, ahl])
     chk.note_analysed('functions', 'radiogenic_models.isotope/fixed/off')
 
     # ------------------------------------------------------------------ R19.2 / R19.3 melting laws
